@@ -410,3 +410,8 @@ Proof.
   - exact enc_simW.
   - unfold allowed_hops. apply forallb_forall. intros [o|o] _; reflexivity.
 Qed.
+
+Lemma encodes_simulation hs a cs a' :
+  run_hops a hs = (cs, Some a') ->
+  exists b', run_ops a (adds hs) = (add_classes hs cs, Some b') /\ fsimW a' b'.
+Proof. intros H. exact (hops_simW_cls hs a a cs a' (fsimW_refl a) H). Qed.
